@@ -90,6 +90,13 @@ thread_local! {
     static LAST_PANIC: RefCell<Option<Panic>> = const { RefCell::new(None) };
 }
 
+/// The most recent panic on any thread (for panics that escape every `guarded` scope).
+static LAST_PANIC_ANYWHERE: std::sync::Mutex<Option<Panic>> = std::sync::Mutex::new(None);
+
+pub fn last_panic_anywhere() -> Option<Panic> {
+    LAST_PANIC_ANYWHERE.lock().ok().and_then(|p| p.clone())
+}
+
 pub fn install_panic_hook() {
     std::panic::set_hook(Box::new(|info| {
         let message = if let Some(s) = info.payload().downcast_ref::<&str>() {
@@ -100,6 +107,9 @@ pub fn install_panic_hook() {
             "<non-string panic>".to_string()
         };
         let (file, line) = info.location().map_or(("<unknown>".to_string(), 0), |l| (l.file().to_string(), l.line()));
+        if let Ok(mut g) = LAST_PANIC_ANYWHERE.lock() {
+            *g = Some(Panic { message: message.clone(), file: file.clone(), line });
+        }
         let _ = LAST_PANIC.try_with(|p| {
             *p.borrow_mut() = Some(Panic { message, file, line });
         });
